@@ -8,7 +8,8 @@ import Gmx.Model.Swap
 `perp new <sid> <W> <U> <30 market config numbers (as `mkt new`)> <10 perp config> <8 funding> <8 borrowing>`
 · `perp setpool <sid> <kind> <long> <short>` · `perp tick <sid> <secs>` · `perp dist <sid>`
 · `perp ubor <sid> <6 prices>` · `perp ufund <sid> <6 prices>` · `perp open <sid> <pid> <isLong> <collLong>`
-· `perp inc <sid> <pid> <collateral> <size> <6 prices>` · `perp dec <sid> <pid> <size> <withdraw> <insolvent> <liquidation> <cap> <6 prices>`
+· `perp inc <sid> <pid> <collateral> <size> <6 prices>` · `perp dec <sid> <pid> <size> <withdraw> <insolvent> <liquidation> <cap> <6 prices>` (the response ends with the flag
+  "`on_insufficient_funding_fee_payment` was reported")
 · `perp chk <sid> <pid> <minCollUsd> <forLiq> <6 prices>` (check_liquidatable, read only)
 · `perp swap <sid> <isInLong> <amount> <6 prices>` · `perp dep <sid> <long> <short> <6 prices>` · `perp wdr <sid> <market tokens> <6 prices>` · `perp pv <sid> <kind> <maximize> <6 prices>`
   (mkt-liq's deposit / withdraw / pool_value WITH the open interest of the session: pending borrowing fees, capped pnl).
@@ -127,7 +128,7 @@ def perpOp (db : PerpDb) (sid : String) (s : PerpSt) (op : String) (args : List 
           | .ok (m', p', r) =>
             let st := match r.insolventStep with | some x => showStep x | none => "_"
             perpReply db sid { s with m := m', ps := posPut s.ps pid p' }
-              s!"ok {r.sizeDelta} {r.sizeDeltaTokens} {r.impactValue} {r.impactDiff} {r.pnl} {r.uncappedPnl} {r.withdrawable} {showBool r.shouldRemove} {r.output} {r.secondary} {r.holdOut} {r.holdSec} {r.userOut} {r.userSec} {st} {showFees r.fees}"
+              s!"ok {r.sizeDelta} {r.sizeDeltaTokens} {r.impactValue} {r.impactDiff} {r.pnl} {r.uncappedPnl} {r.withdrawable} {showBool r.shouldRemove} {r.output} {r.secondary} {r.holdOut} {r.holdSec} {r.userOut} {r.userSec} {st} {showFees r.fees} {showBool r.fundingShort}"
           | .error e => perpReply db sid s (showPErr e)
       | _, _, _ => (db, "bad-op")
     | _, _, _, _ => (db, "bad-op")
@@ -147,7 +148,9 @@ def perpOp (db : PerpDb) (sid : String) (s : PerpSt) (op : String) (args : List 
     | some l, some sh, some pr =>
       if l ≥ 2 ^ W ∨ sh ≥ 2 ^ W then (db, "bad-op") else
       match perpInOf W U s.m s.rc pr with
-      | none => perpReply db sid s "err Fail"
+      | none =>
+        -- the emptiness check of `Deposit::try_new` comes before any pool value is computed
+        perpReply db sid s (if l = 0 ∧ sh = 0 then showMErr .emptyDeposit else "err Fail")
       | some pin =>
         match deposit W U s.m ⟨l, sh, pr⟩ pin with
         | (m', .ok t) =>
@@ -160,7 +163,9 @@ def perpOp (db : PerpDb) (sid : String) (s : PerpSt) (op : String) (args : List 
     | some amt, some pr =>
       if amt ≥ 2 ^ W then (db, "bad-op") else
       match perpInOf W U s.m s.rc pr with
-      | none => perpReply db sid s "err Fail"
+      | none =>
+        -- the emptiness check of `Withdrawal::try_new` comes before any pool value is computed
+        perpReply db sid s (if amt = 0 then showMErr .emptyWithdrawal else "err Fail")
       | some pin =>
         match withdraw W U s.m ⟨amt, pr⟩ pin with
         | (m', .ok r) =>
